@@ -1775,6 +1775,13 @@ _g_ir_node_build_typelib (GIrNode         *node,
 	blob->name = _g_ir_write_string (node->name, strings, data, offset2);
 	blob->signature = signature;
 
+        /* as for functions: the return value has no blob of its own, its
+         * attributes are keyed on the signature */
+        build->nodes_with_attributes = g_list_prepend (build->nodes_with_attributes, function->result);
+        build->n_attributes += g_hash_table_size (((GIrNode *) function->result)->attributes);
+        g_assert (((GIrNode *) function->result)->offset == 0);
+        ((GIrNode *) function->result)->offset = signature;
+
         _g_ir_node_build_typelib ((GIrNode *)function->result->type,
 				 node, build, &signature, offset2, NULL);
 
